@@ -37,6 +37,14 @@ pub fn uncompact(cells: &[u64], target_resolution: i32) -> Result<Vec<u64>, Stri
         ));
     }
 
+    // Work on canonical IDs: an alias of a cell (stray bits below the marker) or a bit pattern that is
+    // no cell must not travel through untouched. cell_to_parent at the cell's own resolution decodes
+    // and re-encodes the ID
+    let cells: &[u64] = &cells
+        .iter()
+        .map(|&cell| cell_to_parent(cell, Some(get_resolution(cell))))
+        .collect::<Result<Vec<u64>, String>>()?;
+
     // First calculate how much space is needed
     let mut n = 0;
     let mut resolutions = Vec::with_capacity(cells.len());
@@ -85,6 +93,12 @@ pub fn compact(cells: &[u64]) -> Result<Vec<u64>, String> {
     if cells.is_empty() {
         return Ok(Vec::new());
     }
+
+    // Work on canonical IDs (see uncompact)
+    let cells = cells
+        .iter()
+        .map(|&cell| cell_to_parent(cell, Some(get_resolution(cell))))
+        .collect::<Result<Vec<u64>, String>>()?;
 
     // Single sort and dedup
     let unique_cells: HashSet<u64> = cells.iter().copied().collect();
